@@ -302,6 +302,40 @@ func checkC04(c *BuildCase, sample bool) []Violation {
 		if sample && b.bytes["deb"] != nil {
 			dpkgDebAccepts(b.bytes["deb"], &vs)
 		}
+		// the file the command leaves at a target that already held a longer file (an earlier, larger build) is
+		// held to the same standard as the library's output
+		if bin := nfpmBinary(); sample && bin != "" && !c.Signed && len(vs) == 0 {
+			fs := c.formats()
+			f := fs[int(c.MTime+int64(len(c.Tree)))%len(fs)]
+			if b.bytes[f] != nil {
+				cfgPath := filepath.Join(root, "c04-cli.yaml")
+				target := filepath.Join(root, "c04-cli-out"+extOf[f])
+				if err := os.WriteFile(cfgPath, c.YAMLFor(root, f), 0o644); err != nil {
+					return err
+				}
+				if err := os.WriteFile(target, append(append([]byte(nil), b.bytes[f]...), bytes.Repeat([]byte("tail of an earlier, larger build\n"), 300)...), 0o644); err != nil {
+					return err
+				}
+				cmd := exec.Command(bin, "package", "-f", cfgPath, "-p", f, "-t", target)
+				cmd.Dir = root
+				if out, err := cmd.CombinedOutput(); err != nil {
+					vs.add("C04.cli-build", f, "nfpm package failed on a configuration the library builds: %v: %s", err, strings.TrimSpace(string(out)))
+				} else if raw, err := os.ReadFile(target); err != nil {
+					vs.add("C04.cli-build", f, "nfpm package succeeded but %s cannot be read: %v", target, err)
+				} else if d, err := Decode(f, raw); err != nil {
+					vs.add("C04.decode", f, "file written by `nfpm package` over an existing longer file: independent reader rejects it: %v", err)
+				} else {
+					var cli vlist
+					checkC04Format(c, f, d, raw, &cli)
+					for _, v := range cli {
+						v.Detail = "file written by `nfpm package` over an existing longer file: " + v.Detail
+						vs = append(vs, v)
+					}
+				}
+				_ = os.Remove(target)
+				_ = os.Remove(cfgPath)
+			}
+		}
 		// boundary probe: pad the description so that apk's .PKGINFO is an exact multiple of the tar block size
 		if d := b.decoded["apk"]; d != nil && len(vs) == 0 {
 			if r := len(d.ControlText) % 512; r != 0 {
